@@ -358,10 +358,11 @@ def enumPlan (c : Converter) (cx : Ctx) (s t : Ty) (path : List PathElem) : M Co
         if !(← returnError cx) then fail .enumErrorNotAllowed
         pure (.error (wrapOf cx path))
       else fail .enumInvalidTarget
-    else if tm.any (·.name == targetName) then pure (.member targetName)
-    else fail .enumTargetMissing
+    else match tm.find? (·.name == targetName) with
+      | some td => pure (.member targetName td.val)
+      | none => fail .enumTargetMissing
   let valOf (ms : List ConstDecl) (n : S) : Option ConstVal := (ms.find? (·.name == n)).map (·.val)
-  let mut cases : List (S × EnumAction) := []
+  let mut cases : List (S × ConstVal × EnumAction) := []
   let mut seenVals : List (ConstVal × S) := []      -- source value ↦ target name of the emitted case
   let mut remaining := defined
   for sd in sm do       -- members are sorted by name
@@ -380,7 +381,7 @@ def enumPlan (c : Converter) (cx : Ctx) (s t : Ty) (path : List PathElem) : M Co
       if mismatch then fail .enumMismatch
     | none =>
       seenVals := seenVals ++ [(sd.val, targetName)]
-      cases := cases ++ [(sd.name, act)]
+      cases := cases ++ [(sd.name, sd.val, act)]
   let unknown := cx.cfg.common.enumUnknown
   if unknown.isEmpty then fail .enumUnknownMissing
   let dflt ← action unknown
@@ -608,7 +609,7 @@ mutual
       -- 4 BasicTargetPointerRule
       if sBasic.isSome && (match tPtr with | some e => (isBasic env e).isSome | none => false) then
         let inner ← conv c fuel cx .build false s (tPtr.getD t) path
-        return .tgtPtr inner
+        return .tgtPtr (tPtr.getD t) inner
       -- 5 Pointer
       if sPtr.isSome && tPtr.isSome then
         let se := sPtr.getD s
@@ -621,10 +622,10 @@ mutual
             return .ctorUpdate ctor toPtr true true inner
           | none => pure ()      -- constructor does not apply here: plain variable
           let inner ← conv c fuel cx .build true se te path
-          return .ptrPtr inner
+          return .ptrPtr te inner
         let v ← if mode == .build then targetVar c cx s t path else pure none
         let inner ← conv c fuel cx .build true se te path
-        return withVar v (.ptrPtr inner)
+        return withVar v (.ptrPtr te inner)
       -- 6 SourcePointer
       if cfg.useZeroValue && sPtr.isSome && tPtr.isNone then
         let se := sPtr.getD s
@@ -651,7 +652,7 @@ mutual
             return .ctorUpdate ctor toPtr false true inner
           | none => pure ()
         let inner ← conv c fuel cx .build false s te path
-        return .tgtPtr inner
+        return .tgtPtr te inner
       -- 8 Basic
       if (match sBasic, tBasic with | some a, some b => a == b | _, _ => false) then
         return (if t.isNamed || s.isNamed then .cast .ident else .ident)
@@ -668,8 +669,8 @@ mutual
         let elem ← conv c fuel cx (.assign false false) false se te (path ++ [.index])
         let fixed := sFixed.isSome
         return (match mode with
-          | .build => .list true (!fixed) elem
-          | .assign _ _ => .list (!fixed) (!fixed) elem)
+          | .build => .list te true (!fixed) elem
+          | .assign _ _ => .list te (!fixed) (!fixed) elem)
       | _, _ => pure ()
       -- 11 Map
       match isMap env s, isMap env t with
@@ -677,7 +678,7 @@ mutual
         let v ← if mode == .build then targetVar c cx s t path else pure none
         let k ← conv c fuel cx .build false sk tk (path ++ [.key])
         let vv ← conv c fuel cx (.assign true false) false sv tv (path ++ [.key])
-        return withVar v (.mapc k vv)
+        return withVar v (.mapc tk tv k vv)
       | _, _ => pure ()
       fail (typeMismatch c s t)
 
